@@ -5,6 +5,7 @@ import pyspec
 
 ID = "C06"
 TARGETS = ["Properties/C06.vo"]
+NEED_CLI = True
 FIELDS = ["key", "sq"]
 EXPLANATION = ("theorem over all frames (2^13 identity codes by kernel-evaluated sweep over the four nibbles read, "
                "all other bits by an extensionality lemma); correspondence: every identity code in DF5 and DF21, "
@@ -48,6 +49,33 @@ def gen(seed, tier):
                     segs.append(seg(0, lines))
                 cases.append(H("C06-%d" % n, opts, segs))
                 n += 1
+    # "no other downlink format changes it": a frame of EVERY format 0..31 (the unsupported ones included: they are filed
+    # under bits 9-32) addressed to an aircraft whose squawk is known
+    for rep in range(2 if tier == "quick" else 20):
+        for o in ({}, {"U": 1}, {"R": 1}, {"U": 1, "R": 1}):
+            icao = g.icao() or 1
+            code = r.getrandbits(13)
+            segs = [seg(0, [g.f_df11(icao, ca=5)]), seg(0, [g.f_short(5, icao, (r.getrandbits(14) << 13) | code)])]
+            dfs = [d for d in range(32) if d not in (5, 21)]
+            r.shuffle(dfs)
+            for d in dfs:
+                segs.append(seg(0, [g.odd_frame(d, icao)]))
+            cases.append(H("C06-f%d" % n, dict(o), segs))
+            n += 1
+    # the squawk as SHOWN: the SQWK cell of the CLI table holds all four digits (leading zeros included)
+    for rep in range(3 if tier == "quick" else 30):
+        lines = []
+        for icao in r.sample(ICAOS, 6):
+            a, b, c, d = r.choice([(0, 0, 0, 0), (0, 0, 0, r.randint(1, 7)), (0, 0, r.randint(1, 7), r.randint(0, 7)),
+                                   (0, r.randint(1, 7), r.randint(0, 7), r.randint(0, 7)), tuple(r.randint(0, 7) for _ in range(4))])
+            lines.append(g.f_short(5, icao, (r.getrandbits(14) << 13) | id13_from_squawk(a, b, c, d)))
+            if r.random() < 0.5:
+                lines.append(g.f_long(21, icao, (r.getrandbits(14) << 13) | id13_from_squawk(d, c, b, a), g.mb_any()))
+        o = {"i": r.choice(["x", "e", "aAews"]), "u": -1, "o": "x"}
+        if rep % 2:
+            o["U"] = 1
+        cases.append(("C06-c%d" % n, "C", opts_str(o), seg(0, lines)))
+        n += 1
     return cases
 
 
@@ -56,6 +84,11 @@ def distribution(idx):
 
 
 def oracle(parts, outcome, obs):
+    if parts[1] == "C":
+        if outcome != "ok":
+            return "outcome %s" % outcome
+        from props.common import check_last_frame_cells
+        return check_last_frame_cells(parts, obs, "".join(pyspec.case_opts(parts).get("i", "").split("+")))
     if parts[1] != "H":
         return None
     if outcome.replace("+slow", "") != "ok":
